@@ -7,6 +7,7 @@ Import ListNotations.
 From HV Require Import lib.PyDict model.BiMapM model.Graph.
 From HV Require Export lib.Harness model.SerialHugr spec.SerialHugrS.
 From HV Require Import model.HugrHist spec.HugrHistS.
+From HV Require Export model.SerialHugrGen spec.SerialHugrGenS.
 
 Record opinfo := { o_code : N; o_ord : bool; o_vin : nat; o_sin : nat; o_vout : nat; o_sout : nat }.
 Definition o_v (o : opinfo) (d : dir) := match d with DIn => o_vin o | DOut => o_vout o end.
@@ -54,6 +55,28 @@ Definition serial_eqb (a b : serialT) : bool :=
   list_eqb snode_eqb (s_nodes a) (s_nodes b) && list_eqb sedge_eqb (s_edges a) (s_edges b) &&
   option_eqb (list_eqb (option_eqb N.eqb)) (s_meta a) (s_meta b).
 
+(* ---- equality up to what the properties leave open (design.d/C02.md, design.d/C03.md "False alarms corrected
+   (harmless changes)") ----
+   documents: the same node list, the same MULTISET of edges (no clause of C02 / C03 gives the position of an edge in
+   the `edges` array a meaning), the same metadata dictionary for every node as a reader takes it from the table
+   (a missing table, a table of nulls, a null entry and {} all read as {}: Hugr._from_serial get_meta) *)
+Definition meta_entry (e : option N) : option N :=
+  match e with Some m => if md_is_nil m then None else Some m | None => None end.
+Definition meta_view (n : nat) (m : option (list (option N))) : list (option N) :=
+  match m with None | Some [] => repeat None n | Some l => map meta_entry l end.
+Definition serial_sameb (a b : serialT) : bool :=
+  list_eqb snode_eqb (s_nodes a) (s_nodes b) && perm_eqb sedge_eqb (s_edges a) (s_edges b) &&
+  list_eqb (option_eqb N.eqb) (meta_view (length (s_nodes a)) (s_meta a)) (meta_view (length (s_nodes b)) (s_meta b)).
+(* HUGRs as the queries show them: operation, parent, ordered children, metadata of every node, the root, the MULTISET
+   of links ("the same multiset of links on every port").  The recorded port counts (num_in_ports / num_out_ports)
+   and the iteration order of links() are no part of what C02 promises: they are diagnostics (harness: model_drift) *)
+Definition node_sameb (a b : nodeT) : bool :=
+  opinfo_eqb (n_op a) (n_op b) && option_eqb Nat.eqb (n_parent a) (n_parent b) &&
+  list_eqb Nat.eqb (n_children a) (n_children b) && N.eqb (n_md a) (n_md b).
+Definition hugr_sameb (a b : hugrT) : bool :=
+  list_eqb (option_eqb node_sameb) (h_nodes a) (h_nodes b) && (h_root a =? h_root b) &&
+  perm_eqb link_eqb (h_links a) (h_links b).
+
 (* what the harness saw of one HUGR and its round trip *)
 Record rt := {
   r_h : hugrT;                       (* public-API dump of the HUGR *)
@@ -62,7 +85,13 @@ Record rt := {
   r_dec : list opinfo;               (* the operations deserialize produced (decode table) *)
   r_json_same : bool;                (* the two documents are equal as JSON values, header fields included *)
   r_pyd : bool;                      (* pydantic validate(dump(s)) == s and dumps again to the same text *)
-  r_schema : bool                    (* the document validates against the published strict schema *)
+  r_schema : bool;                   (* the document validates against the published strict schema *)
+  (* the order in which the document lists the live nodes of r_h (document position k holds node r_ord[k]) and the
+     reloaded HUGR's document those of the reloaded HUGR: the writer's choice as far as C03 is concerned, found by the
+     harness by matching the document against the dump and CHECKED here for admissibility (nodes_listed_in_b /
+     order_admissible_b).  Unused by C02, whose only licence is the order-preserving renumbering. *)
+  r_ord : list nat;
+  r_ord2 : list nat
 }.
 Definition Rt := Build_rt.
 (* ---- mutation histories (model/HugrHist.v over the store of model/Graph.v) ---- *)
@@ -110,19 +139,20 @@ Inductive case :=
 
 (* ---- correspondence: the model computes what the implementation produced ---- *)
 Definition corr_rt (r : rt) : bool :=
-  option_eqb serial_eqb (M_to_serial (r_h r)) (r_doc r) &&
+  option_eqb serial_sameb (M_to_serial (r_h r)) (r_doc r) &&
   match r_doc r with
   | None => true
   | Some s =>
       match M_from_serial (r_dec r) s, r_load r with
       | None, None => true
-      | Some h2, Some (h2', s2') => hugr_eqb h2 h2' && option_eqb serial_eqb (M_to_serial h2') s2'
+      | Some h2, Some (h2', s2') => hugr_sameb h2 h2' && option_eqb serial_sameb (M_to_serial h2') s2'
       | _, _ => false
       end
   end.
-(* the store model run on the history shows exactly the HUGR the implementation's queries show (node table
-   with holes, operations, parents, ordered children, metadata, reported port counts, root, links() in
-   order) and the same calls return normally *)
+(* the store model run on the history shows the HUGR the implementation's queries show (node table with holes,
+   operations, parents, ordered children, metadata, root, the multiset of links) and the same calls return normally.
+   (Reported port counts and the iteration order of links() are the store's own business -- C04 -- and not compared
+   here: C02 promises neither.) *)
 (* (deleted nodes at the end of the node table are not visible to the public queries: the dump ends at the last
    live node) *)
 Fixpoint strip_dead (l : list (option nodeT)) : list (option nodeT) :=
@@ -132,11 +162,11 @@ Fixpoint strip_dead (l : list (option nodeT)) : list (option nodeT) :=
   end.
 Definition trim (h : hugrT) : hugrT := Hg (strip_dead (h_nodes h)) (h_root h) (h_links h).
 Definition corr_hist (st : zst) (cs : list hc) (rets : list bool) (r : rt) : bool :=
-  hugr_eqb (trim (view (hrun st cs))) (r_h r) && list_eqb Bool.eqb (returns st cs) rets.
+  hugr_sameb (trim (view (hrun st cs))) (r_h r) && list_eqb Bool.eqb (returns st cs) rets.
 Definition corr (c : case) : bool :=
   match c with
   | CHugr r => corr_rt r
-  | CPkg mods _ _ => forallb (fun r => option_eqb serial_eqb (M_to_serial (r_h r)) (r_doc r)) mods
+  | CPkg mods _ _ => forallb (fun r => option_eqb serial_sameb (M_to_serial (r_h r)) (r_doc r)) mods
   | CExt _ _ => true
   | CHist o cs rets nr r => corr_rt r && corr_hist (Hinit o) cs rets r && Bool.eqb (hist_ok (Hinit o) cs) nr
   | CMut st cs rets r => corr_rt r && corr_hist st cs rets r
@@ -166,14 +196,16 @@ Definition mon2 (c : case) : bool :=
   | CMut _ _ _ r => mon2_rt r
   | _ => true
   end.
-(* C03: schema-valid, index-sane, nodes listed in index order with the root first, ports addressed
-   by the reader's contract *)
+(* C03: schema-valid, index-sane; the document lists the nodes of the HUGR in SOME order (r_ord: each live node once,
+   the root first, document node k = encoded operation of node r_ord[k] with the position of its parent) -- which order
+   is the writer's choice: "nodes listed in index order" is C02's licence (mon2: iso_b under `rank`), not a clause of
+   C03 --; ports addressed by the reader's contract, the nodes of the edges at their listing positions *)
 Definition mon3_rt (r : rt) : bool :=
   match r_doc r with
   | Some s =>
       r_schema r && index_sane_b s &&
-      nodes_listed_b o_enc N.eqb (r_h r) s &&
-      (negb (ports_exist_b o_v o_s o_ord (r_h r)) || port_addressing_b o_v o_s (r_h r) s)
+      nodes_listed_in_b o_enc N.eqb (r_ord r) (r_h r) s &&
+      (negb (ports_exist_b o_v o_s o_ord (r_h r)) || port_addressing_in_b o_v o_s (r_ord r) (r_h r) s)
   | None => false
   end.
 Definition mon3 (c : case) : bool :=
